@@ -2,6 +2,7 @@ package utils
 
 import (
 	"fmt"
+	"net"
 	"net/http"
 	"strings"
 )
@@ -43,6 +44,10 @@ func NewExtractor(variable string) (SourceExtractor, error) {
 }
 
 func extractClientIP(req *http.Request) (string, int64, error) {
+	// net/http reports IPv6 peers as "[addr]:port": cutting at the first colon would give "["
+	if host, _, err := net.SplitHostPort(req.RemoteAddr); err == nil && host != "" {
+		return host, 1, nil
+	}
 	vals := strings.SplitN(req.RemoteAddr, ":", 2)
 	if vals[0] == "" {
 		return "", 0, fmt.Errorf("failed to parse client IP: %v", req.RemoteAddr)
